@@ -46,12 +46,13 @@ theorem tokenize_total (s : Text) :
 theorem tokenize_terminates (s : Text) : tokenize liveCfg s ≠ .error .OutOfFuel := by
   rcases tokenize_total s with ⟨t, h⟩ | h <;> rw [h] <;> simp
 
-/-- (3) a quoted string or quoted name is never split: every token that contains a quote
-    character is one complete literal — `"…"` with inner `"` doubled, or `'…'` with inner `'`
-    doubled, optionally continued by `:`-joined quoted names.  With (1), every quote
-    character of the input lies inside such a token. -/
+/-- (3) a quoted string or quoted name is never split: every token is either one complete
+    double-quoted string (`"…"` with inner `"` doubled), or a text all of whose quote
+    characters belong to complete quoted names inside that same token (`'…'` with inner `'`
+    doubled, optionally `:`-joined, possibly after a `Table::` prefix or a range colon).
+    With (1), every quote character of the input lies inside such a literal within one token. -/
 theorem quotes_not_split (s : Text) (toks : List Tok) (h : tokenize liveCfg s = .ok toks) :
-    ∀ t ∈ toks, hasQuote t.value = true → Lit Gen.whitespace t.value :=
+    ∀ t ∈ toks, WellQuoted Gen.whitespace t.value :=
   tokenize_quotes error_codes_ok.2 s toks h
 
 /-- what the double-quote scanner accepts is a complete literal. -/
@@ -64,6 +65,13 @@ theorem sq_literal_wellformed (s : Text) (n : Nat) (h : sqMatch Gen.whitespace s
 /-! ### the defect of the pinned commit, as a theorem about its model -/
 example : tokenize pinnedCfg ")".toList = .error .IndexError := by decide
 example : tokenize liveCfg ")".toList = .error .TokenizerError := by decide
+
+/-- the pinned `parse_string` rejected what the reader itself prints for a quoted header name
+    behind a table prefix (`Data::'a-b'`); the repaired one keeps it in one token. -/
+example : (parseStringPinned Gen.whitespace ⟨[], [], "Data::".toList, "'a-b'".toList⟩).map (fun _ => ())
+    = .error .TokenizerError := by decide
+example : (tokenize liveCfg "Data::'a-b':'a-b'+1".toList).toOption.map (·.map (·.value)) =
+    some ["Data::'a-b':'a-b'".toList, "+".toList, "1".toList] := by decide +kernel
 
 /-! ### non-vacuity -/
 example : (tokenize liveCfg "SUM(A1:B2)×3+\"a\"\"b\"".toList).toOption.map (·.map (·.value)) =
